@@ -1,42 +1,126 @@
 import MpfVerif.Lemmas.DriverCmds
-/-! Lemmas about the two software timers of `Model/Driver.lean` (`timed_disable`, `enable_limit_reached`). -/
+/-! Lemmas about the timers of `Model/Driver.lean`: `timed_disable`, `enable_limit_reached` and the PSU-delayed calls. -/
 namespace MpfVerif.C08
 open MpfVerif.Py MpfVerif.Driver
 
-/-- what `doOp` establishes and `fireDue` needs: a software-timed pulse that is on has its timer registered -/
+/-- a software-timed pulse that is on has its timer registered -/
 def Pre (s : Driver.St) : Prop := s.softOn = true → s.timedDisable.isSome = true
 
-/-- after a harness step: the switch-off timer of a software-timed pulse is pending, strictly in the future -/
-def TimerInv (s : Driver.St) : Prop := s.softOn = true → ∃ d, s.timedDisable = some d ∧ s.now < d
+/-- a coil held on by `_enable_now` since `t` on a coil with `max_hold_duration` has its watchdog registered for
+`t + max_hold_duration` -/
+def LimitInv (c : Ctx) (s : Driver.St) : Prop :=
+  (c.cfg "max_hold_duration").truthy = true →
+    ∀ t, s.holdSince = some t → s.limitDue = some (t + secsToMs (c.cfg "max_hold_duration"))
 
-theorem TimerInv.pre {s : Driver.St} (h : TimerInv s) : Pre s := by
-  intro hs; obtain ⟨d, hd, _⟩ := h hs; simp [hd]
+/-- the watchdog only runs while the coil is held -/
+def LimHold (s : Driver.St) : Prop := s.limitDue.isSome = true → s.holdSince.isSome = true
 
-theorem fireDue_inv (s : Driver.St) (h : Pre s) : TimerInv (fireDue s).1 ∧ (fireDue s).1.now = s.now := by
-  unfold fireDue TimerInv
+/-- the part of the invariant that does not mention the clock -/
+def SInv (c : Ctx) (s : Driver.St) : Prop := Pre s ∧ LimitInv c s ∧ LimHold s
+
+/-- no registered timer has been missed: every deadline is now or later -/
+def NoOverdue (s : Driver.St) : Prop := ∀ d ∈ dues s, s.now ≤ d
+
+/-- `s'` is `s` at the same instant with some timers removed and some added that are not in the past -/
+def Grows (s s' : Driver.St) : Prop := s'.now = s.now ∧ ∀ d ∈ dues s', d ∈ dues s ∨ s.now ≤ d
+
+/-- after a harness step: the switch-off timer of a software-timed pulse is pending and has not been missed -/
+def TimerInv (s : Driver.St) : Prop := s.softOn = true → ∃ d, s.timedDisable = some d ∧ s.now ≤ d
+
+theorem mem_dues (s : Driver.St) (d : Nat) :
+    d ∈ dues s ↔ s.timedDisable = some d ∨ s.limitDue = some d ∨ ∃ p ∈ s.pend, p.due = d := by
+  unfold dues
+  simp only [List.mem_append, Option.mem_toList, List.mem_map, or_assoc]
+
+theorem Grows.refl (s : Driver.St) : Grows s s := ⟨rfl, fun _ h => Or.inl h⟩
+
+theorem Grows.trans {a b d : Driver.St} (h1 : Grows a b) (h2 : Grows b d) : Grows a d := by
+  refine ⟨h2.1.trans h1.1, ?_⟩
+  intro x hx
+  rcases h2.2 x hx with h | h
+  · exact h1.2 x h
+  · right; rw [← h1.1]; exact h
+
+theorem Grows.noOverdue {s s' : Driver.St} (h : Grows s s') (hs : NoOverdue s) : NoOverdue s' := by
+  intro d hd
+  rw [h.1]
+  rcases h.2 d hd with h | h
+  · exact hs d h
+  · exact h
+
+theorem timerInv_of (s : Driver.St) (h1 : Pre s) (h2 : NoOverdue s) : TimerInv s := by
+  intro hs
+  have := h1 hs
   cases htd : s.timedDisable with
-  | none =>
-    have hso : s.softOn = false := by
-      cases hs : s.softOn with
-      | false => rfl
-      | true => have := h hs; simp [htd] at this
-    cases hl : s.limitDue with
-    | none => simp [htd, hl, hso]
-    | some l =>
-      by_cases hc : l ≤ s.now <;> simp [htd, hl, hc, doDisable, hso]
-  | some d =>
-    by_cases hd : d ≤ s.now
-    · simp only [htd, hd, if_true, doDisable]
-      simp
-    · cases hl : s.limitDue with
-      | none =>
-        simp only [htd, hd, if_false, hl]
-        exact ⟨fun _ => ⟨d, by simp [htd], by omega⟩, trivial⟩
-      | some l =>
-        by_cases hc : l ≤ s.now
-        · simp [htd, hd, hl, hc, doDisable]
-        · simp only [htd, hd, if_false, hl, hc]
-          exact ⟨fun _ => ⟨d, by simp [htd], by omega⟩, trivial⟩
+  | none => simp [htd] at this
+  | some d => exact ⟨d, rfl, h2 d ((mem_dues s d).2 (Or.inl htd))⟩
+
+/-! ### the primitives -/
+
+theorem doDisable_sinv (c : Ctx) (s : Driver.St) : SInv c (doDisable s).1 := by
+  refine ⟨?_, ?_, ?_⟩ <;> simp [doDisable, Pre, LimitInv, LimHold]
+
+theorem doDisable_grows (s : Driver.St) : Grows s (doDisable s).1 := by
+  refine ⟨rfl, ?_⟩
+  intro d hd
+  left
+  rw [mem_dues] at hd ⊢
+  simp only [doDisable] at hd
+  rcases hd with h | h | h
+  · exact Or.inl h
+  · simp at h
+  · exact Or.inr (Or.inr h)
+
+theorem dropTd_grows (s : Driver.St) : Grows s { s with timedDisable := none } := by
+  refine ⟨rfl, ?_⟩
+  intro d hd
+  left
+  rw [mem_dues] at hd ⊢
+  rcases hd with h | h | h
+  · simp at h
+  · exact Or.inr (Or.inl h)
+  · exact Or.inr (Or.inr h)
+
+theorem dropLim_grows (s : Driver.St) : Grows s { s with limitDue := none } := by
+  refine ⟨rfl, ?_⟩
+  intro d hd
+  left
+  rw [mem_dues] at hd ⊢
+  rcases hd with h | h | h
+  · exact Or.inl h
+  · simp at h
+  · exact Or.inr (Or.inr h)
+
+theorem dropPend_grows (s : Driver.St) (i : Nat) : Grows s { s with pend := s.pend.eraseIdx i } := by
+  refine ⟨rfl, ?_⟩
+  intro d hd
+  left
+  rw [mem_dues] at hd ⊢
+  rcases hd with h | h | ⟨p, hp, h⟩
+  · exact Or.inl h
+  · exact Or.inr (Or.inl h)
+  · exact Or.inr (Or.inr ⟨p, mem_eraseIdx hp, h⟩)
+
+theorem addPend_grows (s : Driver.St) (p : Pend) (hp : s.now ≤ p.due) : Grows s { s with pend := s.pend ++ [p] } := by
+  refine ⟨rfl, ?_⟩
+  intro d hd
+  rw [mem_dues] at hd
+  rcases hd with h | h | ⟨q, hq, h⟩
+  · exact Or.inl ((mem_dues s d).2 (Or.inl h))
+  · exact Or.inl ((mem_dues s d).2 (Or.inr (Or.inl h)))
+  · rcases mem_append_single hq with hq | rfl
+    · exact Or.inl ((mem_dues s d).2 (Or.inr (Or.inr ⟨q, hq, h⟩)))
+    · right; rw [← h]; exact hp
+
+/-- `SInv` only reads the two named timers and the two ghosts -/
+theorem SInv.congr {c : Ctx} {s s' : Driver.St} (h : SInv c s) (h1 : s'.softOn = s.softOn)
+    (h2 : s'.timedDisable = s.timedDisable) (h3 : s'.limitDue = s.limitDue) (h4 : s'.holdSince = s.holdSince) :
+    SInv c s' := by
+  obtain ⟨a, b, d⟩ := h
+  refine ⟨?_, ?_, ?_⟩
+  · unfold Pre; rw [h1, h2]; exact a
+  · unfold LimitInv; rw [h3, h4]; exact b
+  · unfold LimHold; rw [h3, h4]; exact d
 
 theorem doTimedEnable_state (c : Ctx) (s s' : Driver.St) (te hp ms pw : PyVal) (cmds : List Cmd)
     (h : doTimedEnable c s te hp ms pw = .ok (s', cmds)) : s' = s := by
@@ -56,11 +140,13 @@ theorem doTimedEnable_state (c : Ctx) (s s' : Driver.St) (te hp ms pw : PyVal) (
           simp only [h1, h2, h3, h4, pure, Except.pure, Except.ok.injEq, Prod.mk.injEq] at h
           exact h.1.symm
 
-theorem pulseNow_pre (c : Ctx) (s s' : Driver.St) (pm pp : PyVal) (cmds : List Cmd) (hs : Pre s)
-    (h : pulseNow c s pm pp = .ok (s', cmds)) : Pre s' ∧ s'.now = s.now := by
+/-- `_pulse_now` leaves the state alone or arms `timed_disable` (not in the past) and marks the software pulse -/
+theorem pulseNow_state (c : Ctx) (s s' : Driver.St) (pm pp : PyVal) (cmds : List Cmd)
+    (h : pulseNow c s pm pp = .ok (s', cmds)) :
+    s' = s ∨ s' = { s with timedDisable := some (s.now + msOf pm), softOn := true } := by
   unfold pulseNow at h
   split at h
-  · rw [doTimedEnable_state c s s' _ _ _ _ cmds h]; exact ⟨hs, rfl⟩
+  · exact Or.inl (doTimedEnable_state c s s' _ _ _ _ cmds h)
   · simp only [bind, Except.bind] at h
     cases h1 : pyCmp "<" (.int 0) pm with
     | error e => simp [h1] at h
@@ -70,11 +156,95 @@ theorem pulseNow_pre (c : Ctx) (s s' : Driver.St) (pm pp : PyVal) (cmds : List C
       | ok b =>
         simp only [h1, h2] at h
         split at h <;> simp only [pure, Except.pure, Except.ok.injEq, Prod.mk.injEq] at h
-        · rw [← h.1]; exact ⟨hs, rfl⟩
-        · rw [← h.1]; exact ⟨fun _ => rfl, rfl⟩
+        · exact Or.inl h.1.symm
+        · exact Or.inr h.1.symm
 
-theorem doOp_pre (c : Ctx) (s s' : Driver.St) (op : Op) (cmds : List Cmd) (hs : Pre s)
-    (h : doOp c s op = .ok (s', cmds)) : Pre s' ∧ s'.now = s.now := by
+theorem armTd_grows (s : Driver.St) (k : Nat) : Grows s { s with timedDisable := some (s.now + k), softOn := true } := by
+  refine ⟨rfl, ?_⟩
+  intro d hd
+  rw [mem_dues] at hd
+  rcases hd with h | h | h
+  · right; simp at h; omega
+  · exact Or.inl ((mem_dues s d).2 (Or.inr (Or.inl h)))
+  · exact Or.inl ((mem_dues s d).2 (Or.inr (Or.inr h)))
+
+theorem armTd_sinv (c : Ctx) (s : Driver.St) (k : Nat) (h : SInv c s) :
+    SInv c { s with timedDisable := some (s.now + k), softOn := true } :=
+  ⟨fun _ => rfl, h.2.1, h.2.2⟩
+
+theorem pulseNow_inv (c : Ctx) (s s' : Driver.St) (pm pp : PyVal) (cmds : List Cmd) (hs : SInv c s)
+    (h : pulseNow c s pm pp = .ok (s', cmds)) : SInv c s' ∧ Grows s s' := by
+  rcases pulseNow_state c s s' pm pp cmds h with rfl | rfl
+  · exact ⟨hs, Grows.refl _⟩
+  · exact ⟨armTd_sinv c s _ hs, armTd_grows s _⟩
+
+theorem enableNow_inv (c : Ctx) (s : Driver.St) (pm pp h : PyVal) (hs : SInv c s) :
+    SInv c (enableNow c s pm pp h).1 ∧ Grows s (enableNow c s pm pp h).1 := by
+  obtain ⟨_, hl, hh⟩ := hs
+  unfold enableNow
+  by_cases hmd : (c.cfg "max_hold_duration").truthy = true
+  · cases hlim : s.limitDue with
+    | none =>
+      have hhold : s.holdSince = none := by
+        cases hx : s.holdSince with
+        | none => rfl
+        | some t => have := hl hmd t hx; simp [hlim] at this
+      simp only [hmd, hlim, Option.isNone_none, Bool.and_self, if_true, hhold, Option.getD_none]
+      refine ⟨⟨by simp [Pre], ?_, by simp [LimHold]⟩, rfl, ?_⟩
+      · intro _ t ht; simp at ht; subst ht; rfl
+      · intro d hd
+        rw [mem_dues] at hd
+        rcases hd with h | h | h
+        · exact Or.inl ((mem_dues s d).2 (Or.inl h))
+        · right; simp at h; omega
+        · exact Or.inl ((mem_dues s d).2 (Or.inr (Or.inr h)))
+    | some x =>
+      simp only [hmd, hlim, Option.isNone_some, Bool.and_false, Bool.false_eq_true, if_false]
+      have hsome : s.holdSince.isSome = true := hh (by simp [hlim])
+      cases hx : s.holdSince with
+      | none => simp [hx] at hsome
+      | some t =>
+        refine ⟨⟨by simp [Pre], ?_, by simp [LimHold]⟩, rfl, ?_⟩
+        · intro _ t' ht'; simp at ht'; subst ht'; simpa [hlim] using hl hmd t hx
+        · intro d hd
+          left
+          rw [mem_dues] at hd ⊢
+          simpa [hlim] using hd
+  · simp only [hmd, Bool.false_eq_true, Bool.false_and, if_false]
+    refine ⟨⟨by simp [Pre], fun h => absurd h hmd, ?_⟩, rfl, ?_⟩
+    · intro _; simp
+    · intro d hd
+      left
+      rw [mem_dues] at hd ⊢
+      exact hd
+
+theorem fireTd_inv (c : Ctx) (s : Driver.St) (h : SInv c s) : SInv c (fireTd s).1 ∧ Grows s (fireTd s).1 := by
+  unfold fireTd
+  split
+  · split
+    · exact ⟨doDisable_sinv c _, (dropTd_grows s).trans (doDisable_grows _)⟩
+    · exact ⟨h, Grows.refl _⟩
+  · exact ⟨h, Grows.refl _⟩
+
+theorem fireLim_inv (c : Ctx) (s : Driver.St) (h : SInv c s) : SInv c (fireLim s).1 ∧ Grows s (fireLim s).1 := by
+  unfold fireLim
+  split
+  · split
+    · exact ⟨doDisable_sinv c _, (dropLim_grows s).trans (doDisable_grows _)⟩
+    · exact ⟨h, Grows.refl _⟩
+  · exact ⟨h, Grows.refl _⟩
+
+theorem fireDue_inv (c : Ctx) (s : Driver.St) (h : SInv c s) : SInv c (fireDue s).1 ∧ Grows s (fireDue s).1 := by
+  unfold fireDue
+  have h1 := fireTd_inv c s h
+  have h2 := fireLim_inv c (fireTd s).1 h1.1
+  exact ⟨h2.1, h1.2.trans h2.2⟩
+
+theorem delay_ge (s : Driver.St) (v : PyVal) : s.now ≤ s.now + delayMs v := by omega
+
+/-- a request keeps the invariant and only adds timers that are not in the past -/
+theorem doOp_inv (c : Ctx) (s s' : Driver.St) (op : Op) (cmds : List Cmd) (hs : SInv c s)
+    (h : doOp c s op = .ok (s', cmds)) : SInv c s' ∧ Grows s s' := by
   cases op with
   | pulse ms pw =>
     simp only [doOp, bind, Except.bind] at h
@@ -85,7 +255,26 @@ theorem doOp_pre (c : Ctx) (s s' : Driver.St) (op : Op) (cmds : List Cmd) (hs : 
       | error e => simp [h1, h2] at h
       | ok pp =>
         simp only [h1, h2] at h
-        exact pulseNow_pre c s s' _ _ cmds hs h
+        exact pulseNow_inv c s s' _ _ cmds hs h
+  | pulseW ms pw mw w =>
+    simp only [doOp, bind, Except.bind] at h
+    cases h1 : vPulseMs c ms with
+    | error e => simp [h1] at h
+    | ok pm =>
+      cases h2 : vPulsePower c pw with
+      | error e => simp [h1, h2] at h
+      | ok pp =>
+        cases h3 : pyCmp ">" (waitOf mw w) (.int 0) with
+        | error e => simp [h1, h2, h3] at h
+        | ok b =>
+          cases b with
+          | true =>
+            simp only [h1, h2, h3, if_true, pure, Except.pure, Except.ok.injEq, Prod.mk.injEq] at h
+            obtain ⟨rfl, rfl⟩ := h
+            exact ⟨hs.congr rfl rfl rfl rfl, addPend_grows s _ (delay_ge s _)⟩
+          | false =>
+            simp only [h1, h2, h3, Bool.false_eq_true, if_false] at h
+            exact pulseNow_inv c s s' _ _ cmds hs h
   | enable ms pw hp =>
     simp only [doOp, bind, Except.bind] at h
     cases h1 : vPulseMs c ms with
@@ -103,90 +292,181 @@ theorem doOp_pre (c : Ctx) (s s' : Driver.St) (op : Op) (cmds : List Cmd) (hs : 
             cases z with
             | true => simp [h1, h2, h3, h4, throw, throwThe, MonadExceptOf.throw] at h
             | false =>
-              simp only [h1, h2, h3, h4, Bool.false_eq_true, if_false, pure, Except.pure, Except.ok.injEq,
-                Prod.mk.injEq] at h
-              rw [← h.1]
-              split <;> exact ⟨fun hc => by simp at hc, rfl⟩
-  | timedEnable te hp ms pw => rw [doTimedEnable_state c s s' _ _ _ _ cmds h]; exact ⟨hs, rfl⟩
+              simp only [h1, h2, h3, h4, Bool.false_eq_true, if_false, pure, Except.pure, Except.ok.injEq] at h
+              have key := enableNow_inv c s pm pp hh hs
+              rw [h] at key
+              exact key
+  | enableW ms pw hp mw w =>
+    simp only [doOp, bind, Except.bind] at h
+    cases h1 : vPulseMs c ms with
+    | error e => simp [h1] at h
+    | ok pm =>
+      cases h2 : vPulsePower c pw with
+      | error e => simp [h1, h2] at h
+      | ok pp =>
+        cases h3 : vHoldPower c hp with
+        | error e => simp [h1, h2, h3] at h
+        | ok hh =>
+          cases h4 : pyCmp "==" hh (.flt 0) with
+          | error e => simp [h1, h2, h3, h4] at h
+          | ok z =>
+            cases z with
+            | true => simp [h1, h2, h3, h4, throw, throwThe, MonadExceptOf.throw] at h
+            | false =>
+              cases h5 : pyCmp ">" (waitOf mw w) (.int 0) with
+              | error e => simp [h1, h2, h3, h4, h5] at h
+              | ok b =>
+                cases b with
+                | true =>
+                  simp only [h1, h2, h3, h4, h5, if_true, pure, Except.pure, Except.ok.injEq, Prod.mk.injEq,
+                    Bool.false_eq_true, if_false] at h
+                  obtain ⟨rfl, rfl⟩ := h
+                  exact ⟨hs.congr rfl rfl rfl rfl, addPend_grows s _ (delay_ge s _)⟩
+                | false =>
+                  simp only [h1, h2, h3, h4, h5, Bool.false_eq_true, if_false, pure, Except.pure, Except.ok.injEq] at h
+                  have key := enableNow_inv c s pm pp hh hs
+                  rw [h] at key
+                  exact key
+  | timedEnable te hp ms pw => rw [doTimedEnable_state c s s' _ _ _ _ cmds h]; exact ⟨hs, Grows.refl _⟩
+  | timedEnableW te hp ms pw mw => rw [doTimedEnable_state c s s' _ _ _ _ cmds h]; exact ⟨hs, Grows.refl _⟩
   | disable =>
-    simp only [doOp, doDisable, pure, Except.pure, Except.ok.injEq, Prod.mk.injEq] at h
-    rw [← h.1]; exact ⟨fun hc => by simp at hc, rfl⟩
+    simp only [doOp, pure, Except.pure, Except.ok.injEq] at h
+    have : s' = (doDisable s).1 := by rw [h]
+    rw [this]
+    exact ⟨doDisable_sinv c s, doDisable_grows s⟩
   | advance dt =>
     simp only [doOp, pure, Except.pure, Except.ok.injEq, Prod.mk.injEq] at h
-    rw [← h.1]; exact ⟨hs, rfl⟩
+    rw [← h.1]; exact ⟨hs, Grows.refl _⟩
+  | fire w =>
+    simp only [doOp, pure, Except.pure, Except.ok.injEq, Prod.mk.injEq] at h
+    rw [← h.1]; exact ⟨hs, Grows.refl _⟩
 
-end MpfVerif.C08
+theorem runPend_inv (c : Ctx) (s : Driver.St) (p : Pend) (hs : SInv c s) :
+    SInv c (runPend c s p).1 ∧ Grows s (runPend c s p).1 := by
+  cases p with
+  | pulseNow d pm pp =>
+    simp only [runPend]
+    cases h : pulseNow c s pm pp with
+    | error e => exact ⟨hs, Grows.refl _⟩
+    | ok r => obtain ⟨s', cmds⟩ := r; exact pulseNow_inv c s s' pm pp cmds hs h
+  | enableNow d pm pp h => exact enableNow_inv c s pm pp h hs
 
-namespace MpfVerif.C08
-open MpfVerif.Py MpfVerif.Driver
+/-- running one timer keeps the invariant and only adds timers that are not in the past -/
+theorem runTimer_inv (c : Ctx) (s : Driver.St) (w : Which) (hs : SInv c s) :
+    SInv c (runTimer c s w).1 ∧ Grows s (runTimer c s w).1 := by
+  cases w with
+  | td => exact ⟨doDisable_sinv c _, (dropTd_grows s).trans (doDisable_grows _)⟩
+  | lim => exact ⟨doDisable_sinv c _, (dropLim_grows s).trans (doDisable_grows _)⟩
+  | pend i =>
+    simp only [runTimer]
+    cases hp : s.pend[i]? with
+    | none => exact ⟨hs, Grows.refl _⟩
+    | some p =>
+      have h := runPend_inv c { s with pend := s.pend.eraseIdx i } p (hs.congr rfl rfl rfl rfl)
+      exact ⟨h.1, (dropPend_grows s i).trans h.2⟩
 
-/-- number of registered software timers -/
-def pending (s : Driver.St) : Nat := (if s.timedDisable.isSome then 1 else 0) + (if s.limitDue.isSome then 1 else 0)
+/-! ### the clock -/
 
-theorem doDisable_fields (s : Driver.St) :
-    (doDisable s).1.timedDisable = s.timedDisable ∧ (doDisable s).1.limitDue = none ∧ (doDisable s).1.now = s.now ∧
-      (doDisable s).1.softOn = false := by simp [doDisable]
-
-/-- firing at a time at which the earliest timer is due removes at least one timer and keeps `Pre` -/
-theorem fireDue_pending (s : Driver.St) (d : Nat) (hn : nextDue s = some d) (hd : d ≤ s.now) :
-    pending (fireDue s).1 < pending s := by
-  unfold fireDue pending nextDue at *
-  cases htd : s.timedDisable with
-  | none =>
-    cases hl : s.limitDue with
-    | none => simp [htd, hl] at hn
-    | some l =>
-      simp only [htd, hl, Option.some.injEq] at hn
-      subst hn
-      simp [htd, hl, hd, doDisable]
-  | some a =>
-    cases hl : s.limitDue with
+theorem listMin_le : ∀ (l : List Nat) (d : Nat), listMin l = some d → ∀ x ∈ l, d ≤ x
+  | [], d, h => by simp [listMin] at h
+  | a :: r, d, h => by
+    intro x hx
+    simp only [listMin] at h
+    cases hr : listMin r with
     | none =>
-      simp only [htd, hl, Option.some.injEq] at hn
-      subst hn
-      simp [htd, hl, hd, doDisable]
-    | some l =>
-      simp only [htd, hl, Option.some.injEq] at hn
-      by_cases ha : a ≤ s.now
-      · simp [htd, hl, ha, doDisable]
-      · have hl' : l ≤ s.now := by omega
-        simp [htd, hl, ha, hl', doDisable]
+      simp only [hr, Option.some.injEq] at h
+      have : r = [] := by
+        cases r with
+        | nil => rfl
+        | cons b t => simp only [listMin] at hr; split at hr <;> simp at hr
+      subst this
+      simp at hx; omega
+    | some b =>
+      simp only [hr, Option.some.injEq] at h
+      rcases List.mem_cons.1 hx with rfl | hx
+      · omega
+      · have := listMin_le r b hr x hx; omega
 
-theorem fireDue_pre (s : Driver.St) (h : Pre s) : Pre (fireDue s).1 := (fireDue_inv s h).1.pre
+theorem listMin_none : ∀ (l : List Nat), listMin l = none → l = []
+  | [], _ => rfl
+  | a :: r, h => by simp only [listMin] at h; split at h <;> simp at h
 
-/-- running the clock to `target` with enough fuel re-establishes the invariant at `target` -/
-theorem advanceTo_inv (fuel : Nat) (s : Driver.St) (target : Nat) (h : Pre s) (hf : pending s < fuel)
-    (ht : s.now ≤ target) : TimerInv (advanceTo fuel s target).1 := by
+/-- moving the clock to the earliest deadline (or not at all) misses nothing -/
+theorem jump_noOverdue (s : Driver.St) (d : Nat) (hn : nextDue s = some d) (hs : NoOverdue s) :
+    NoOverdue { s with now := max d s.now } := by
+  intro x hx
+  have h1 : d ≤ x := listMin_le _ d hn x hx
+  have h2 : s.now ≤ x := hs x hx
+  simp only [Nat.max_le]; exact ⟨h1, h2⟩
+
+/-- moving the clock to a target before the earliest deadline misses nothing -/
+theorem rest_noOverdue (s : Driver.St) (target : Nat) (hs : NoOverdue s)
+    (hn : nextDue s = none ∨ ∃ d, nextDue s = some d ∧ ¬ d ≤ target) :
+    NoOverdue { s with now := max target s.now } := by
+  intro x hx
+  have h2 : s.now ≤ x := hs x hx
+  rcases hn with hn | ⟨d, hn, hd⟩
+  · have : dues s = [] := listMin_none _ hn
+    have hx' : x ∈ dues s := hx
+    rw [this] at hx'; simp at hx'
+  · have h1 : d ≤ x := listMin_le _ d hn x hx
+    simp only [Nat.max_le]; exact ⟨by omega, h2⟩
+
+/-- running the clock keeps the invariant and never passes a timer without running it — with any amount of fuel -/
+theorem advanceTo_inv (c : Ctx) (fuel : Nat) (s : Driver.St) (target : Nat) (hs : SInv c s) (hn : NoOverdue s) :
+    SInv c (advanceTo c fuel s target).1 ∧ NoOverdue (advanceTo c fuel s target).1 := by
   induction fuel generalizing s with
-  | zero => omega
+  | zero => exact ⟨hs, hn⟩
   | succ f ih =>
     unfold advanceTo
-    cases hn : nextDue s with
-    | none =>
-      simp only []
-      intro hs
-      have := h hs
-      unfold nextDue at hn
-      cases htd : s.timedDisable <;> cases hl : s.limitDue <;> simp_all
+    cases hd : nextDue s with
+    | none => exact ⟨hs.congr rfl rfl rfl rfl, rest_noOverdue s target hn (Or.inl hd)⟩
     | some d =>
       simp only []
-      by_cases hd : d ≤ target
-      · simp only [hd, if_true]
-        have hpre : Pre { s with now := max d s.now } := h
-        have hlt := fireDue_pending { s with now := max d s.now } d (by simpa [nextDue] using hn) (by simp; omega)
-        have hnow := (fireDue_inv { s with now := max d s.now } hpre).2
-        have : pending { s with now := max d s.now } = pending s := rfl
-        exact ih _ (fireDue_pre _ hpre) (by omega) (by rw [hnow]; simp; omega)
-      · simp only [hd, if_false]
-        intro hs
-        have hsome := h hs
-        unfold nextDue at hn
-        cases htd : s.timedDisable with
-        | none => simp [htd] at hsome
-        | some a =>
-          refine ⟨a, by simp [htd], ?_⟩
-          cases hl : s.limitDue <;> simp [htd, hl] at hn <;> simp <;> omega
+      by_cases hle : d ≤ target
+      · simp only [hle, if_true]
+        have h0 : NoOverdue { s with now := max d s.now } := jump_noOverdue s d hd hn
+        have h1 := runTimer_inv c { s with now := max d s.now } (firstAt s d) (hs.congr rfl rfl rfl rfl)
+        exact ih _ h1.1 (h1.2.noOverdue h0)
+      · simp only [hle, if_false]
+        exact ⟨hs.congr rfl rfl rfl rfl, rest_noOverdue s target hn (Or.inr ⟨d, hd, hle⟩)⟩
 
-theorem pending_le_two (s : Driver.St) : pending s ≤ 2 := by unfold pending; split <;> split <;> omega
+/-- an explicit `fire` keeps the invariant and misses nothing -/
+theorem fire_inv (c : Ctx) (s s' : Driver.St) (w : Which) (o : List Cmd) (hs : SInv c s) (hn : NoOverdue s)
+    (h : fire c s w = some (s', o)) : SInv c s' ∧ NoOverdue s' := by
+  unfold fire at h
+  cases hd : dueOf s w with
+  | none => simp [hd] at h
+  | some d =>
+    simp only [hd] at h
+    split at h
+    · rename_i hmin
+      simp only [Option.some.injEq] at h
+      have h0 : NoOverdue { s with now := max d s.now } := jump_noOverdue s d hmin hn
+      have h1 := runTimer_inv c { s with now := max d s.now } w (hs.congr rfl rfl rfl rfl)
+      rw [h] at h1
+      exact ⟨h1.1, h1.2.noOverdue h0⟩
+    · simp at h
+
+/-- one harness step keeps the invariant and misses no timer -/
+theorem step_inv (c : Ctx) (s : Driver.St) (op : Op) (hs : SInv c s) (hn : NoOverdue s) :
+    SInv c (step c s op).1 ∧ NoOverdue (step c s op).1 := by
+  rcases step_cases c s op with ⟨dt, _, h⟩ | ⟨w, _, h⟩ | h
+  · rw [h]; exact advanceTo_inv c _ s _ hs hn
+  · rw [h]
+    cases hf : fire c s w with
+    | none => exact ⟨hs, hn⟩
+    | some r => obtain ⟨s', o⟩ := r; exact fire_inv c s s' w o hs hn hf
+  · rw [h]
+    unfold reqStep
+    cases hop : doOp c s op with
+    | error e =>
+      have h1 := fireDue_inv c s hs
+      exact ⟨h1.1, h1.2.noOverdue hn⟩
+    | ok r =>
+      obtain ⟨s1, o1⟩ := r
+      have h0 := doOp_inv c s s1 op o1 hs hop
+      have h1 := fireDue_inv c s1 h0.1
+      exact ⟨h1.1, h1.2.noOverdue (h0.2.noOverdue hn)⟩
 
 end MpfVerif.C08
